@@ -563,6 +563,16 @@ class MsgClient(Client):
         return out
 
     def failed_user_aio(self, st, aioexpr, cell, sim, f):
+        if cell is not None and not f.startswith("a refused"):
+            cur0 = st.cells.get(cell)
+            if isinstance(cur0, tuple) and cur0[0] == "DANGLING":
+                # any aio, not only the user's send aio: whoever is told that the operation failed finds the message still
+                # on the aio and disposes of it (the failure prologue of every completion callback does)
+                self.rep.add("fail-with-released-message", sim,
+                             "%s completes %s with an error while the aio still carries a message this function has released: "
+                             "the owner of the aio releases the message of a failed operation again" % (f, show(aioexpr)),
+                             "failed with a released message")
+                return
         if not self.is_send_op or cell is None:
             return
         p = apath(aioexpr)
